@@ -1604,7 +1604,7 @@ def c19_program(prop, key, index, tier):
 
     nsteps = rng.randint(3, 12)
     ops = ['job', 'job', 'job', 'seq', 'seq', 'append', 'append', 'requires', 'requires', 'remove',
-           'sched', 'add', 'update', 'seqreq', 'seqasreq', 'nest', 'nest']
+           'sched', 'add', 'update', 'seqreq', 'seqasreq', 'nest', 'nest', 'leave', 'look']
     for step in range(nsteps):
         op = rng.choice(ops)
         desc = None
@@ -1762,6 +1762,34 @@ def c19_program(prop, key, index, tier):
                 desc = "%s.add(%s)" % (sc, x)
                 real[sc].add(real[x])
                 model[sc].jobs.update(m_flat([model[x]]))
+            elif op == 'leave':
+                # a job leaves a scheduler (its requirements are its own business)
+                sc = pick('Sn', False)
+                if not sc or not model[sc].jobs:
+                    continue
+                x = rng.choice(sorted(model[sc].jobs, key=lambda j: j.name))
+                desc = "%s.remove(%s)" % (sc, x.name)
+                real[sc].remove(real[x.name])
+                model[sc].jobs.discard(x)
+                out.count('jobs leaving a scheduler between construction statements')
+            elif op == 'look':
+                # somebody looks at a scheduler in between (reverse links, numbering)
+                sc = pick('Sn', False)
+                if not sc:
+                    continue
+                what = rng.choice(['exit_jobs', 'entry_jobs', 'successors'])   # (none of them recurses)
+                desc = "%s.%s(..)" % (sc, what)
+                with contextlib.redirect_stdout(io.StringIO()):
+                    if what == 'successors':
+                        for j in list(real[sc].jobs)[:2]:
+                            list(real[sc].successors(j))
+                    elif what == 'sanitize':
+                        real[sc].sanitize()
+                        for j in model[sc].jobs:
+                            j.req &= model[sc].jobs
+                    else:
+                        list(getattr(real[sc], what)() or ())
+                out.count('schedulers looked at between construction statements')
             elif op == 'update':
                 sc = pick('Sn', False)
                 if not sc:
